@@ -146,10 +146,21 @@ class MemS3:
             def paginate(self, Bucket: str, Prefix: str = "", **kw: Any):
                 # one scheduling point per listing (as before); the pages are taken from ONE consistent view, each
                 # capped by the server-side page size, following the continuation token like botocore's paginator
+                # PaginationConfig as botocore's paginator understands it: PageSize = keys asked per request, MaxItems = cap
+                # on the TOTAL number of keys handed out over all pages (the last page is cut short, nothing follows it)
                 outer._call("list_objects_v2", Prefix, {})
+                cfg = kw.get("PaginationConfig") or {}
+                max_items, page_size = cfg.get("MaxItems"), int(cfg.get("PageSize") or 1000)
+                handed = 0
                 token = None
                 while True:
-                    resp = outer._list_page(Prefix, 1000, token)
+                    resp = outer._list_page(Prefix, page_size, token)
+                    if max_items is not None and "Contents" in resp and handed + len(resp["Contents"]) >= int(max_items):
+                        resp = dict(resp, Contents=resp["Contents"][: max(0, int(max_items) - handed)])
+                        resp["KeyCount"] = len(resp["Contents"])
+                        yield resp
+                        return
+                    handed += len(resp.get("Contents", []))
                     yield resp
                     if not resp.get("IsTruncated"):
                         return
